@@ -513,7 +513,9 @@ class MetadorGroup(MetadorNode):
             "expand_refs": True,
             "without_attrs": without_attrs,
         }
-        self.__wrapped__.copy(source, dst_path, **copy_kwargs)  # RAW
+        # (the raw driver needs the raw source node, not its wrapper)
+        raw_source = source.__wrapped__ if isinstance(source, MetadorNode) else source
+        self.__wrapped__.copy(raw_source, dst_path, **copy_kwargs)  # RAW
         dst_node = self[dst_path]  # exists now
 
         src_meta: str = src_node.meta._base_dir
